@@ -276,14 +276,15 @@ func coqCfg(c instCfg) string {
 
 // ---- observations ----
 type obsIn struct {
-	Honest  bool               `json:"honest"`
-	Raw     []byte             `json:"raw,omitempty"` // if set: these bytes are the observation (undecodable / hand-mutated)
-	Att     string             `json:"att,omitempty"` // "" | "bad" | "good"
-	Retire  bool               `json:"retire,omitempty"`
-	Ts      uint64             `json:"ts"`
-	Removes []uint32           `json:"removes,omitempty"`
-	Updates map[uint32]defDesc `json:"updates,omitempty"`
-	Values  map[uint32]*svDesc `json:"values,omitempty"`
+	Honest   bool               `json:"honest"`
+	Scripted bool               `json:"scripted,omitempty"` // use the fields below even for a correct observer (directed histories)
+	Raw      []byte             `json:"raw,omitempty"`      // if set: these bytes are the observation (undecodable / hand-mutated)
+	Att      string             `json:"att,omitempty"`      // "" | "bad" | "good"
+	Retire   bool               `json:"retire,omitempty"`
+	Ts       uint64             `json:"ts"`
+	Removes  []uint32           `json:"removes,omitempty"`
+	Updates  map[uint32]defDesc `json:"updates,omitempty"`
+	Values   map[uint32]*svDesc `json:"values,omitempty"`
 }
 
 func (o obsIn) observation(rc *mockRetirementCache) llo.Observation {
